@@ -36,6 +36,11 @@
 //!   cli-q <c>                             -> connecting=.. connected=.. disconnected=.. reason=<R|-> id=.. addr=.. idle=<ns> now=<ns>
 //!   cli-dump <c>                          -> NetcodeClient::verif_dump()
 //!   note <word>                           -> ok        (tags for the oracles: hostile, …)
+//!   nc-quiet <0|1>                        -> ok        while on, every emitted datagram is printed as `#<length>` instead of its
+//!        hex (`send <addr> #333`, `connected <id> <addr> <ud> #25`, …): the trace no longer depends on key material the
+//!        library draws at random. The history still holds the real bytes: refer to them by `@<k>`.
+//!   srv-new … with `-` as <challenge_key>: the server keeps the challenge key it generated itself (random per instance;
+//!        the model gives every such instance a key of its own)
 //! Unknown handle or malformed argument -> bad-op.  A Rust unwind -> panic (then `dead`).
 use crate::common::*;
 use chacha20poly1305::aead::{AeadInPlace, KeyInit};
@@ -265,12 +270,31 @@ fn emitted_of(op: &str, out: &str) -> Option<(String, Vec<u8>)> {
     if !matches!(kind, "srv-rx" | "srv-updc" | "srv-disc" | "srv-pay" | "cli-upd" | "cli-pay" | "cli-disc") {
         return None;
     }
+    // `#<len>` (quiet mode): a datagram of that length whose content the trace does not show (all zeros here)
+    let bytes = |h: &str| -> Option<Vec<u8>> {
+        match h.strip_prefix('#') {
+            Some(n) => Some(vec![0u8; p_u64(n)? as usize]),
+            None => unhex(h),
+        }
+    };
     let t: Vec<&str> = out.split(' ').collect();
     match t.as_slice() {
-        ["send", a, h] => Some((a.to_string(), unhex(h)?)),
-        ["connected", _, a, _, h] => Some((a.to_string(), unhex(h)?)),
-        ["disconnected", _, a, h] if *h != "none" => Some((a.to_string(), unhex(h)?)),
+        ["send", a, h] => Some((a.to_string(), bytes(h)?)),
+        ["connected", _, a, _, h] => Some((a.to_string(), bytes(h)?)),
+        ["disconnected", _, a, h] if *h != "none" => Some((a.to_string(), bytes(h)?)),
         _ => None,
+    }
+}
+
+/// the output line with the datagram hidden (quiet mode)
+fn hide_datagram(out: &str) -> String {
+    let t: Vec<&str> = out.split(' ').collect();
+    let hidden = |h: &str| format!("#{}", unhex(h).map(|v| v.len()).unwrap_or(0));
+    match t.as_slice() {
+        ["send", a, h] => format!("send {} {}", a, hidden(h)),
+        ["connected", id, a, ud, h] => format!("connected {} {} {} {}", id, a, ud, hidden(h)),
+        ["disconnected", id, a, h] if *h != "none" => format!("disconnected {} {} {}", id, a, hidden(h)),
+        _ => out.to_string(),
     }
 }
 
@@ -283,6 +307,7 @@ pub struct NcWorld {
     servers: HashMap<u64, NetcodeServer>,
     clients: HashMap<u64, NetcodeClient>,
     history: Vec<Vec<u8>>,
+    quiet: bool,
 }
 
 fn new_world() -> Box<dyn World> {
@@ -323,6 +348,14 @@ impl NcWorld {
         let t: Vec<&str> = op.trim().split(' ').filter(|x| !x.is_empty()).collect();
         match t.as_slice() {
             ["note", ..] => Some("ok".into()),
+            ["nc-quiet", b] => {
+                self.quiet = match *b {
+                    "1" => true,
+                    "0" => false,
+                    _ => return None,
+                };
+                Some("ok".into())
+            }
             ["rp-run", cmds] => {
                 let mut rp = ReplayProtection::new();
                 let mut bits = String::new();
@@ -510,7 +543,7 @@ impl NcWorld {
                     _ => return None,
                 };
                 let key: [u8; 32] = p_hexn(key)?;
-                let ckey: [u8; 32] = p_hexn(ckey)?;
+                let ckey: Option<[u8; 32]> = if *ckey == "-" { None } else { Some(p_hexn(ckey)?) };
                 let addrs = p_addrs(addrs)?;
                 if addrs.iter().any(|a| a.is_none()) {
                     return None;
@@ -522,7 +555,9 @@ impl NcWorld {
                     public_addresses: addrs.into_iter().flatten().collect(),
                     authentication: if secure { ServerAuthentication::Secure { private_key: key } } else { ServerAuthentication::Unsecure },
                 });
-                server.verif_set_challenge_key(ckey);
+                if let Some(ckey) = ckey {
+                    server.verif_set_challenge_key(ckey);
+                }
                 self.servers.insert(h, server);
                 Some("ok".into())
             }
@@ -645,6 +680,9 @@ impl World for NcWorld {
         let out = self.run(op).unwrap_or_else(|| "bad-op".to_string());
         if let Some((_, d)) = emitted_of(op, &out) {
             self.history.push(d);
+            if self.quiet {
+                return hide_datagram(&out);
+            }
         }
         out
     }
